@@ -8,15 +8,33 @@ def nontrivial(p, line):
     return bool(pipe.seg(line,'thall')!='1')
 
 
+def std_cell_of_requested_setting(per_mode):
+    """C10, first sentence, last clause: for an honoured request the tabulated operations of h map std_cell onto itself.  The
+    verified oracle evaluates this under the tag of C06 (it is the same Lean clause); for `Setting::HallNumber` requests it
+    counts for C10 as well."""
+    fails = []
+    for mode, (reqs, ans) in per_mode.items():
+        for line, a in zip(reqs, ans):
+            if not (pipe.seg(line, "setting") or "").startswith("hall"):
+                continue
+            p = pipe.parse_answer(a)
+            if p is None or p["outcome"] != "ok":
+                continue
+            bad = [f for f in p["fails"] if f.startswith("C06: tabulated operation") or f.startswith("C06: Hall number")]
+            if bad:
+                fails.append((mode, line, "C10: the std_cell returned for the requested setting is not mapped onto itself by the tabulated operations of that Hall number: " + bad[0]))
+    return fails
+
+
 def run(tier, seed):
     pipe.translate_s5()
     return pipe.run_property("C10", tier, seed, ['hallreq'], PROPS,
                              {"rule": 'Setting::HallNumber(h) for all 530 h on a crystal generated in that setting (own cell; re-described for every third h in quick, all in thorough), on a crystal of a neighbouring other type (mostly same arithmetic class), and out-of-range numbers {0,-5,531,i32::MAX,i32::MIN}; non-trivial = matching request on a non-P1 setting or a non-matching request'},
-                             nontrivial, stages=["s5"],
+                             nontrivial, stages=["s5"], extra=std_cell_of_requested_setting,
                              trusted=["premise validation of the generator (the generated crystal has exactly the generating group, symmetry gap >= 0.2 A) is a brute-force search in Rust, independent of moyo",
                                       "f64 rounding inside moyo is not modelled: the oracle judges the returned values in exact rational arithmetic",
                                       "the oracle's float code only orders candidate sites; every verdict is an exact test (Proofs/OracleSite.lean)"])
 
 
 def replay(path):
-    return pipe.replay("C10", path)
+    return pipe.replay("C10", path, extra=std_cell_of_requested_setting)
